@@ -17,7 +17,9 @@ import datetime as dt
 import math
 from fractions import Fraction as Fr
 
+import warnings
 import numpy as np
+warnings.filterwarnings("ignore", category=RuntimeWarning)     # inf * 0, inf - inf inside numpy reductions are intended inputs
 import irispie as ir
 from irispie import dates as D
 from irispie.series import arip as ARIP
@@ -50,7 +52,11 @@ MANIFEST = {
              "options stream incl. function form = in-place method form; a memoised per-variant loop equals the plain loop iff the key determines "
              "the value (the (nHigh, rho, const, sigma) key is sound, a rho-only key is refuted), the whole multi-variant arip loop tied to one call "
              "on the multi-variant series; the DAILY finding C12-a is machine-checked clause by clause on the model of the current code "
-             "(placement, uncovered days, first, failing round trip)."),
+             "(placement, uncovered days, first, failing round trip). Round 5: the within-period routine is also "
+             "modelled over extended values (NaN, -inf, +inf, rationals; IEEE +, x, <) and proved to refine the rational model for every method; "
+             "discard_missing removes NaN only (+-inf reach the method; a +inf member without -inf/NaN gives sum = mean = +inf); the documented "
+             "spellings of the arip model (rate/multiplicative, diff/additive, mean/avg) resolve to the same form, sigma vector and aggregation "
+             "vector; tied by exact streams on _aggregate_within_data and the arip tables, every spelling also run end to end."),
     "design": "7/C12",
     "note": ("IEEE rounding is outside the theorems: data are dyadic so that sums/products are exact, statistics.mean is compared with the "
              "correctly rounded exact mean; arip outputs are compared with tolerances (1e-8 relative) on generator-controlled instances. "
@@ -95,6 +101,8 @@ def vtext(x) -> str:
 def vparse(s: str) -> float:
     if s == "nan":
         return NAN
+    if s in ("inf", "-inf"):
+        return float(s)
     return float(Fr(s))
 
 
@@ -259,6 +267,20 @@ def isnan(x):
 
 def reduce_exact(method: str, g):
     """expected value of `method` on the non-empty group g (floats); None = the statement leaves it open"""
+    if any(math.isinf(x) for x in g) and not any(isnan(x) for x in g):
+        # +-inf are observations; IEEE rules, written out independently of the implementation
+        pos, neg = any(x == math.inf for x in g), any(x == -math.inf for x in g)
+        if method in ("sum", "mean"):
+            return NAN if (pos and neg) else (math.inf if pos else -math.inf)
+        if method == "prod":
+            if any(x == 0 for x in g):
+                return NAN
+            return -math.inf if sum(1 for x in g if x < 0) % 2 else math.inf
+        if method == "first":
+            return g[0]
+        if method == "last":
+            return g[-1]
+        return min(g) if method == "min" else max(g)
     if method in ("mean", "sum", "prod"):
         if any(isnan(x) for x in g):
             return NAN
@@ -464,9 +486,13 @@ ORACLES = {"agg": oracle_agg, "dis": oracle_dis, "rt": oracle_rt, "opt": oracle_
 #   case line:  aripq <F> <T> <start> <form> <agg name | v1,v2,…> <nLow> low… <nHigh> target…
 # ---------------------------------------------------------------------------------------
 
+FORM_CANON = {"rate": "rate", "multiplicative": "rate", "diff": "diff", "additive": "diff"}
+FORM_ALIAS = {"rate": "multiplicative", "multiplicative": "rate", "diff": "additive", "additive": "diff"}
+AGG_ALIAS = {"mean": "avg", "avg": "mean"}
 AGG_VEC = {
     "sum": lambda n: [1.0] * n,
     "mean": lambda n: [1 / n] * n,
+    "avg": lambda n: [1 / n] * n,
     "first": lambda n: [1.0] + [0.0] * (n - 1),
     "last": lambda n: [0.0] * (n - 1) + [1.0],
 }
@@ -489,7 +515,7 @@ def arip_params(f, t, form, low_eff):
     n_high = len(low_eff) * (hf // lf)
     fin = [i for i, x in enumerate(low_eff) if math.isfinite(x)]
     span = fin[-1] - fin[0] if fin else 0
-    if form == "diff":
+    if FORM_CANON[form] == "diff":
         rho = 1.0
         const = ((low_eff[fin[-1]] - low_eff[fin[0]]) / span) * (float(lf) / float(hf)) if span else 0.0
         sigma = [1.0] * n_high
@@ -680,7 +706,7 @@ def oracle_arip(ctx: Ctx, line: str, res: dict, tol=1e-8, case=None, tag=""):
     # round trip through the public aggregate with the declared aggregation
     if isinstance(agg, str):
         ys = mk_series(t, hs, 1, [[v] for v in y])
-        back = ir.aggregate(ys, FREQ[f], method=agg)
+        back = ir.aggregate(ys, FREQ[f], method=("mean" if agg == "avg" else agg))
         bmap = as_map(None if back.start is None else int(back.start.serial), [list(map(float, r)) for r in np.asarray(back.data, dtype=float)])
         for i, lv in enumerate(le):
             if math.isfinite(lv):
@@ -688,6 +714,15 @@ def oracle_arip(ctx: Ctx, line: str, res: dict, tol=1e-8, case=None, tag=""):
                 if not (abs(b - lv) <= tol * scale * w):
                     ctx.fail("arip-roundtrip", case or {"line": line}, tag + f"aggregate('{agg}') of the arip output gives {b} at low period {i}, original {lv}")
                     return
+    # every documented spelling of the same model gives the same output
+    ws0 = line.split()
+    for other in ([ws0[:4] + [FORM_ALIAS[ws0[4]]] + ws0[5:]] + ([ws0[:5] + [AGG_ALIAS[ws0[5]]] + ws0[6:]] if ws0[5] in AGG_ALIAS else [])):
+        alt = arip_run(" ".join(other))
+        if "y" not in alt or len(alt["y"]) != len(y) or max(abs(a - b) for a, b in zip(alt["y"], y)) > 1e-9 * scale:
+            ctx.fail("arip-spellings-differ", case or {"line": line},
+                     tag + f"model=({ws0[4]!r}, {ws0[5]!r}) and its documented alias ({other[4]!r}, {other[5]!r}) give different outputs: "
+                     f"{[round(v, 6) for v in y[:4]]} vs {[round(v, 6) for v in alt.get('y', [alt.get('err')])[:4]]}")
+            return
     dev = max(abs(float(xs[j] - yq[j])) for j in range(n_high))
     if dev > 1e-6 * scale:
         def obj(x):
@@ -976,8 +1011,8 @@ def gen_arip(ctx: Ctx, count=None):
         n_low = rng.randint(2, 4 if w >= 6 else 6) if not rng.chance(0.08) else 1
         if ctx.quick and w == 12:
             n_low = min(n_low, 2)
-        form = rng.choice(["diff", "rate"])
-        aggspec = rng.weighted([("sum", 3), ("mean", 3), ("first", 2), ("last", 2), ("custom", 2)])
+        form = rng.choice(["diff", "rate", "additive", "multiplicative"])
+        aggspec = rng.weighted([("sum", 3), ("mean", 2), ("avg", 2), ("first", 2), ("last", 2), ("custom", 2)])
         if aggspec == "custom":
             aggspec = ",".join(frac_text(Fr(rng.randint(1, 6), rng.choice([1, 2, 4]))) for _ in range(w))
         base = rng.randint(8, 40)
@@ -985,7 +1020,7 @@ def gen_arip(ctx: Ctx, count=None):
         v = float(base)
         for _ in range(n_low):
             low.append(v)
-            v = v + rng.randint(-3, 6) * 0.5 if form == "diff" else max(1.0, v * rng.choice([1.0, 1.125, 1.25, 0.875, 1.5]))
+            v = v + rng.randint(-3, 6) * 0.5 if FORM_CANON[form] == "diff" else max(1.0, v * rng.choice([1.0, 1.125, 1.25, 0.875, 1.5]))
         if n_low >= 3 and rng.chance(0.25):
             low[rng.randint(1, n_low - 2)] = NAN
         target = [NAN] * (n_low * w)
@@ -1018,8 +1053,8 @@ def gen_arip_mv(ctx: Ctx, count=None):
         if ctx.quick and w == 12:
             n_low = 2
         nv = rng.choice([2, 2, 3])
-        form = rng.choice(["diff", "rate"])
-        aggspec = rng.weighted([("sum", 3), ("mean", 3), ("first", 1), ("last", 2), ("custom", 1)])
+        form = rng.choice(["diff", "rate", "additive", "multiplicative"])
+        aggspec = rng.weighted([("sum", 3), ("mean", 2), ("avg", 1), ("first", 1), ("last", 2), ("custom", 1)])
         if aggspec == "custom":
             aggspec = ",".join(frac_text(Fr(rng.randint(1, 6), rng.choice([1, 2, 4]))) for _ in range(w))
         cols = []
@@ -1030,7 +1065,7 @@ def gen_arip_mv(ctx: Ctx, count=None):
             col = []
             for _ in range(n_low):
                 col.append(val)
-                val = val + step + rng.randint(-1, 1) * 0.5 if form == "diff" else max(1.0, val * growth)
+                val = val + step + rng.randint(-1, 1) * 0.5 if FORM_CANON[form] == "diff" else max(1.0, val * growth)
             if n_low >= 3 and rng.chance(0.2):
                 col[rng.randint(1, n_low - 2)] = NAN
             cols.append(col)
@@ -1044,6 +1079,120 @@ def gen_arip_mv(ctx: Ctx, count=None):
         lines.append(" ".join(toks))
         ctx.count(f"arip:mv:{form}:nv{nv}")
     return lines
+
+
+# ---------------------------------------------------------------------------------------
+# non-finite observations and spellings (round 5)
+# ---------------------------------------------------------------------------------------
+
+def gen_xagg(ctx: Ctx):
+    """one within-period group over nan / +-inf / dyadic values, every method, with and without discarding"""
+    rng = ctx.rng.fork("xagg")
+    lines = []
+    for _ in range(ctx.n(400, 4000)):
+        m = rng.choice(METHODS)
+        pool = ["nan", "inf", "-inf", "0/1"] + ([vtext(v) for v in (1.0, 2.0, -1.0, 0.5, -2.0)] if m == "prod" else [vtext(rng.dyadic(-8, 8, 3)) for _ in range(4)])
+        g = [rng.choice(pool) for _ in range(rng.randint(1, 6))]
+        lines.append(" ".join(["xagg", m, str(rng.randint(0, 1))] + g))
+        ctx.count("xagg:with-inf" if any("inf" in x for x in g) else "xagg:finite")
+    return lines
+
+
+def impl_xagg(line: str) -> str:
+    from irispie.series import _conversions as CONV
+    ws = line.split()
+    try:
+        out = CONV._aggregate_within_data(None, ws[2] == "1", CONV._AGGREGATION_METHOD_RESOLUTION[ws[1]], np.array([vparse(w) for w in ws[3:]], dtype=float))
+        return vtext(out)
+    except Exception as e:
+        return err_kind(e)
+
+
+def gen_aripform(ctx: Ctx):
+    lines = []
+    for form in ["rate", "multiplicative", "diff", "additive", "level"]:
+        for agg in ["sum", "mean", "avg", "first", "last", "median"]:
+            for rho in ["1/1", "3/2", "1/2", "5/4", "2/1"]:
+                for n, w in [(4, 2), (12, 4), (9, 3)]:
+                    lines.append(f"aripform {form} {agg} {rho} {n} {w}")
+    return lines
+
+
+def impl_aripform(line: str) -> str:
+    _, form, agg, rho, n, w = line.split()
+    try:
+        cls = ARIP._CHOOSE_FORM[form]
+        canon = "diff" if cls is ARIP._DiffForm else "rate"
+        rho_eff = 1.0 if canon == "diff" else float(Fr(rho))
+        sigma = cls.get_sigma_vector(rho_eff, int(n))
+        av = ARIP._CHOOSE_AGGREGATION_VECTOR[agg](int(w))
+        return canon + " ; " + " ".join(vtext(v) for v in sigma) + " ; " + " ".join(vtext(v) for v in av)
+    except Exception as e:
+        return err_kind(e)
+
+
+def check_xagg(ctx: Ctx, xl, with_model=True):
+    if not xl:
+        return
+    impl = [impl_xagg(l) for l in xl]
+    ctx.evaluations += len(xl)
+    # independent expectation for the group (same rules as the membership oracle)
+    for l, r in zip(xl, impl):
+        ws = l.split()
+        g = [vparse(w) for w in ws[3:]]
+        if ws[2] == "1":
+            g = [x for x in g if not isnan(x)]
+        e = NAN if not g else reduce_exact(ws[1], g)
+        if e is not None and not (r in ("nan", "inf", "-inf") or "/" in r):
+            ctx.fail("aggregate-nonfinite", {"line": l}, f"the within-period routine raised ({r})")
+        elif e is not None and not same(e, vparse(r)):
+            ctx.fail("aggregate-nonfinite", {"line": l}, f"method {ws[1]} discard={ws[2]} on {ws[3:]} gives {e!r}, the implementation returned {r}")
+    if with_model:
+        model = ctx.model("C12", xl)
+        if model is not None:
+            model = [m if m in ("nan", "inf", "-inf", "bad-op") else vtext(vparse(m)) for m in model]
+        ctx.compare("within-nonfinite", [{"line": l} for l in xl], impl, model)
+
+
+def check_aripform(ctx: Ctx, al, with_model=True):
+    if not al or not with_model:
+        return
+    am = ctx.model("C12", al)
+    if am is not None:
+        am = [" ; ".join([p.split(".")[-1] if i == 0 else " ".join(vtext(vparse(z)) for z in p.split()) for i, p in enumerate(m.split(" ; "))]) if " ; " in m else m for m in am]
+    ctx.compare("arip-spellings", [{"line": l} for l in al], [impl_aripform(l) for l in al], am)
+    ctx.evaluations += len(al)
+
+
+def run_round5_streams(ctx: Ctx, with_model=True):
+    check_xagg(ctx, gen_xagg(ctx), with_model)
+    check_aripform(ctx, gen_aripform(ctx), with_model)
+    # end to end: series with +-inf, -0.0, huge and tiny magnitudes through aggregate, all keyword spellings of discarding
+    rng = ctx.rng.fork("agg-nonfinite")
+    lines = []
+    for _ in range(ctx.n(150, 1500)):
+        hi, lo = rng.choice(PAIRS + [("D", "M"), ("D", "Q")])
+        nv = rng.choice([1, 1, 2])
+        if hi == "D":
+            start = dt.date(rng.choice([2000, 2019, 2020]), rng.randint(1, 12), rng.randint(1, 28)).toordinal()
+            n = rng.randint(5, 70)
+        else:
+            start = rng.choice([1999, 2020]) * FVAL[hi] + rng.randint(0, FVAL[hi] - 1)
+            n = rng.randint(2, 2 * FVAL[hi])
+        m = rng.choice(METHODS)
+        rows = gen_rows(rng, n, nv, 0.2, "pow2" if m == "prod" else "dyadic")
+        special = [math.inf, -math.inf, math.inf, -math.inf, 0.0]
+        if m in ("first", "last", "min", "max"):
+            special += [-0.0, 1e308, -1e308, 2.0 ** -1060, -(2.0 ** -1070)]
+        for _ in range(rng.randint(1, 3)):
+            rows[rng.randint(0, n - 1)][rng.randint(0, nv - 1)] = rng.choice(special)
+        vals = [vtext(v) for r in rows for v in r]
+        if rng.chance(0.5):
+            lines.append(" ".join(["agg", hi, lo, str(start), m, str(rng.randint(0, 1)), "-", str(nv), str(n)] + vals))
+        else:
+            lines.append(" ".join(["opt", rng.choice("-01"), rng.choice("-01"), m, hi, lo, str(start), str(nv), str(n)] + vals))
+        ctx.count("agg:nonfinite")
+    run_series_stream(ctx, "agg-nonfinite", lines, with_model=False)
 
 
 # ---------------------------------------------------------------------------------------
@@ -1200,8 +1349,8 @@ def gen_reuse(ctx: Ctx):
             tvals[rng.randint(0, total * w - 1)] = float(rng.randint(8, 60)) / 4
         tvals[0] = tvals[0] if not isnan(tvals[0]) else 5.0      # a Series is trimmed: observed ends
         tvals[-1] = tvals[-1] if not isnan(tvals[-1]) else 7.5
-        form = rng.choice(["diff", "rate"])
-        aggspec = rng.choice(["sum", "mean", "last"])
+        form = rng.choice(["diff", "rate", "additive", "multiplicative"])
+        aggspec = rng.choice(["sum", "mean", "avg", "last"])
         calls = []
         spans = [(0, total), (rng.randint(0, 1), rng.randint(2, max(2, total - 1))), (0, total)]
         rng.shuffle(spans)
@@ -1231,10 +1380,12 @@ def run_reuse_stream(ctx: Ctx, lines):
 def run_series_stream(ctx: Ctx, name: str, lines, with_model=True):
     impl = [impl_eval(l) for l in lines]
     if with_model:
-        model = ctx.model("C12", lines)
+        # +-inf are outside the rational series model (the within-period routine has its own extended model, `xagg`)
+        idx = [i for i, l in enumerate(lines) if "inf" not in l]
+        model = ctx.model("C12", [lines[i] for i in idx])
         if model is not None:
             model = [round_model_series(r) for r in model]
-        ctx.compare(name, [{"line": l} for l in lines], impl, model)
+        ctx.compare(name, [{"line": lines[i]} for i in idx], [impl[i] for i in idx], model)
     for l, r in zip(lines, impl):
         ORACLES[l.split()[0]](ctx, l, r)
         ws = l.split()
@@ -1274,7 +1425,7 @@ def run_arip_stream(ctx: Ctx, lines, with_model=True):
             ctx.nontriv(("arip", f, t, form, agg if isinstance(agg, str) else "custom", any(not isnan(x) for x in target), len(low), tag[:9]))
         if not with_model:
             continue
-        if form == "diff" and "F" in res:
+        if FORM_CANON[form] == "diff" and "F" in res:
             sys_lines.append(arip_model_line(l, "aripsys", "1")); sys_cases.append(case)
             sys_impl.append(qmat_text(res["F"]) + " | " + qmat_text(res["C"]))
         x_lines.append(arip_model_line(l, "arip", "1")); x_cases.append(case); x_impl.append(res)
@@ -1341,6 +1492,8 @@ def run_lines(ctx: Ctx, lines, name, with_model=True):
     ser = [l for l in lines if l.split()[0] in ORACLES]
     ar = [l for l in lines if l.split()[0] in ("aripq", "aripmv")]
     run_reuse_stream(ctx, [l for l in lines if l.split()[0] == "reuse"])
+    check_xagg(ctx, [l for l in lines if l.split()[0] == "xagg"], with_model)
+    check_aripform(ctx, [l for l in lines if l.split()[0] == "aripform"], with_model)
     if ser:
         run_series_stream(ctx, name, ser, with_model)
     if ar:
@@ -1383,6 +1536,7 @@ def run(ctx: Ctx):
     run_series_stream(ctx, "roundtrip", gen_rt(ctx))
     run_arip_stream(ctx, gen_arip(ctx) + gen_arip_mv(ctx))
     run_reuse_stream(ctx, gen_reuse(ctx))
+    run_round5_streams(ctx)
     ctx.exhaustive = False
     ctx.extra["exhaustive_parts"] = ("every start segment of the 6 regular pairs; every NaN mask of single-variant series up to length "
                                      + ("7" if ctx.quick else "9") + " (aggregate) and 5 (disaggregate)")
@@ -1396,6 +1550,7 @@ def search(ctx: Ctx, seeds):
     for gen in (gen_agg_regular, gen_agg_daily, gen_agg_daily_boundaries, gen_agg_select, gen_options, gen_dis, gen_dis_daily, gen_rt):
         run_series_stream(ctx, "search", gen(ctx), with_model=False)
     run_arip_stream(ctx, gen_arip(ctx, 300) + gen_arip_mv(ctx, 150), with_model=False)
+    run_round5_streams(ctx, with_model=False)
     run_reuse_stream(ctx, gen_reuse(ctx))
 
 
